@@ -182,7 +182,8 @@ Definition observe (p : plan) (m : nat) (xs : list A) (f0 : fs) : val :=
     | Err _ => VNone
     end in
   VTup [enc_res r; enc_fs (s_fs s1); VList (map enc_fs (s_hist s1)); VInt (Z.of_nat (s_calls s1));
-        VBool (s_locked s1); enc_res r2; readback; VList names; per_part; read_glob; resave].
+        VBool (s_locked s1); enc_res r2; readback; VList names; per_part; read_glob; resave;
+        VList []   (* paths created outside the target: never any *)].
 End Observe.
 
 (* text *)
@@ -219,7 +220,7 @@ Fixpoint unpickle (tbl : list (bytes * list val)) (b : bytes) : res (list val) :
 
 Definition run (c : val) : val :=
   match c with
-  | VTup [VInt saver; VInt m; VList parts; pre; VList wfs; VList cfs; VStr ext; VTup [VInt pmode; VInt pk]; VStr _] =>   (* last: the name of the target, opaque *)
+  | VTup [VInt saver; VInt m; VList parts; pre; VList wfs; VList cfs; VStr ext; VTup [VInt pmode; VInt pk]; VStr _; VInt _] =>   (* last two: the name of the target and how its path is spelled -- opaque *)
       match dec_fs pre, dec_wfaults wfs, dec_cfaults cfs with
       | Some f0, Some w, Some cfl =>
           let sizes := map (fun v => match v with
